@@ -22,6 +22,7 @@ def match(findings, prop, v):
     for f in findings:
         if f.get("status") != "known":
             continue
-        if (f["property"], f["clause"], f["component"], f["disc"]) == k:
+        import fnmatch
+        if (f["property"], f["clause"]) == k[:2] and fnmatch.fnmatchcase(k[2], f["component"]) and f["disc"] == k[3]:
             return f
     return None
